@@ -210,7 +210,7 @@ func TestLongLivedLane(t *testing.T) {
 	rt.Check(t, 12, 1500, func(t *rapid.T) {
 		lanes := rapid.IntRange(1, 3).Draw(t, "laneSize")
 		n := rapid.SampledFrom([]int{4093, 4094, 4095, 4096, 4097, 8190, 8191, 8192}).Draw(t, "warmUpTasks") + rapid.IntRange(0, 2).Draw(t, "plus")
-		p := ls.Program{LaneSize: lanes, QueueSize: rapid.IntRange(1, 3).Draw(t, "queueSize"), Timeout: time.Second}
+		p := ls.Program{LaneSize: lanes, QueueSize: rapid.IntRange(1, 3).Draw(t, "queueSize"), Timeout: time.Second, Long: true}
 		for i := 0; i < n; i++ {
 			p.Ops = append(p.Ops, ls.Op{Kind: ls.OpPush, Lane: 0, Task: ls.TaskSpec{Kind: ls.TInstant}}, ls.Op{Kind: ls.OpSettle})
 		}
